@@ -269,7 +269,11 @@ def r2_holdout(ctx, fq, plate_balanced):
         if isinstance(n_e, ast.Tuple) and len(n_e.elts) == 1:
             n_e = n_e.elts[0]
         txt = U(n_e).replace(" ", "")
-        hm_ok = txt in (f"np.count_nonzero({V})", f"{V}.sum()", f"int({V}.sum())", f"np.sum({V})", f"int(np.sum({V}))", f"int(np.count_nonzero({V}))")
+        hm_ok = txt in (f"np.count_nonzero({V})", f"{V}.sum()", f"int({V}.sum())", f"np.sum({V})", f"int(np.sum({V}))", f"int(np.count_nonzero({V}))",
+                        # the number of selected rows, counted through their positions / through a column taken at them
+                        f"len(np.flatnonzero({V}))", f"np.flatnonzero({V}).size", f"np.flatnonzero({V}).shape[0]", f"len(np.where({V})[0])", f"len(np.nonzero({V})[0])")
+        import re as _re
+        hm_ok = hm_ok or bool(_re.fullmatch(rf"(len\({_re.escape(S)}\.\w+\[{_re.escape(V)}\]\)|{_re.escape(S)}\.\w+\[{_re.escape(V)}\]\.shape\[0\])", txt))
         dt = kwargs(hm_i).get("dtype")
         hm_ok = hm_ok and dt is not None and U(dt) in ("bool", "np.bool_")
     ctx.check("R2", f"{f.site()}::holdout-mask", hm_ok, "hold-out mask is all-true of the hold-out length",
